@@ -233,6 +233,71 @@ theorem minByKey_map {β γ : Type} (key : β → Nat) (key' : γ → Nat) (g : 
         split <;> rfl
       rw [this, ih]
 
+/-- `minByKey` returns the **leftmost** element of minimal key: everything before it has a strictly
+larger key, everything after it a key at least as large (Rust `min_by_key` keeps the first of
+several equally minimal elements). -/
+theorem foldl_min_first {β : Type} (key : β → Nat) :
+    ∀ (xs : List β) (x : β),
+      (xs.foldl (fun best y => if key y < key best then y else best) x = x ∧ ∀ y ∈ xs, key x ≤ key y) ∨
+      ∃ pre post, xs = pre ++ xs.foldl (fun best y => if key y < key best then y else best) x :: post ∧
+        key (xs.foldl (fun best y => if key y < key best then y else best) x) < key x ∧
+        (∀ y ∈ pre, key (xs.foldl (fun best y => if key y < key best then y else best) x) < key y) ∧
+        ∀ y ∈ post, key (xs.foldl (fun best y => if key y < key best then y else best) x) ≤ key y := by
+  intro xs
+  induction xs with
+  | nil => intro x; left; simp
+  | cons y ys ih =>
+    intro x
+    simp only [List.foldl_cons]
+    by_cases hk : key y < key x
+    · simp only [hk, if_true]
+      rcases ih y with ⟨he, hall⟩ | ⟨pre, post, hys, hlt, hpre, hpost⟩
+      · right
+        refine ⟨[], ys, by rw [he]; rfl, by rw [he]; exact hk, by simp, ?_⟩
+        rw [he]; exact hall
+      · right
+        refine ⟨y :: pre, post, by rw [List.cons_append, ← hys], by omega, ?_, hpost⟩
+        intro z hz
+        simp only [List.mem_cons] at hz
+        rcases hz with rfl | hz
+        · exact hlt
+        · exact hpre z hz
+    · simp only [hk, if_false]
+      rcases ih x with ⟨he, hall⟩ | ⟨pre, post, hys, hlt, hpre, hpost⟩
+      · left
+        refine ⟨he, ?_⟩
+        intro z hz
+        simp only [List.mem_cons] at hz
+        rcases hz with rfl | hz
+        · omega
+        · exact hall z hz
+      · right
+        refine ⟨y :: pre, post, by rw [List.cons_append, ← hys], hlt, ?_, hpost⟩
+        intro z hz
+        simp only [List.mem_cons] at hz
+        rcases hz with rfl | hz
+        · omega
+        · exact hpre z hz
+
+theorem minByKey_first {β : Type} (key : β → Nat) {l : List β} {x : β}
+    (h : minByKey key l = some x) :
+    ∃ pre post, l = pre ++ x :: post ∧ (∀ y ∈ pre, key x < key y) ∧ ∀ y ∈ post, key x ≤ key y := by
+  cases l with
+  | nil => simp [minByKey] at h
+  | cons a t =>
+    simp only [minByKey, Option.some.injEq] at h
+    rcases foldl_min_first key t a with ⟨he, hall⟩ | ⟨pre, post, ht, hlt, hpre, hpost⟩
+    · rw [h] at he
+      subst he
+      exact ⟨[], t, rfl, by simp, hall⟩
+    · rw [h] at ht hlt hpre hpost
+      refine ⟨a :: pre, post, by rw [List.cons_append, ← ht], ?_, hpost⟩
+      intro z hz
+      simp only [List.mem_cons] at hz
+      rcases hz with rfl | hz
+      · exact hlt
+      · exact hpre z hz
+
 /-! ### rounds -/
 
 theorem candidates_mem {m : MergeMap α} {toks : List α} {c : (α × α) × (Nat × α)}
@@ -315,5 +380,47 @@ theorem bpeMergeFuel_stable (m : MergeMap α) :
       | some t' =>
         have := mergeRound_length_lt hr
         exact ih k t' (by omega) (by omega)
+
+/-! ### the `tokens.len() - 1` of the inner loop never underflows -/
+
+/-- The inner loop with the `usize` subtraction made partial: `none` where `tokens.len() - 1`
+would underflow (panic in debug, wrap + out-of-bounds index in release). -/
+def replaceLoopChecked (first second merged : α) : Nat → Nat → List α → Option (List α)
+  | 0, _, toks => some toks
+  | fuel + 1, i, toks =>
+    if toks.length = 0 then none
+    else if i < toks.length - 1 then
+      if toks[i]? = some first ∧ toks[i + 1]? = some second then
+        replaceLoopChecked first second merged fuel (i + 1) ((toks.set i merged).eraseIdx (i + 1))
+      else
+        replaceLoopChecked first second merged fuel (i + 1) toks
+    else some toks
+
+/-- Loop invariant: started on a non-empty vector the checked loop never hits the underflow, at
+any iteration (a merge happens only at `i < len - 1`, i.e. `len ≥ 2`, and removes one element),
+and computes what the unchecked model computes. -/
+theorem replaceLoopChecked_eq (f s m : α) :
+    ∀ (fuel i : Nat) (toks : List α), toks ≠ [] →
+      replaceLoopChecked f s m fuel i toks = some (replaceLoop f s m fuel i toks) := by
+  intro fuel
+  induction fuel with
+  | zero => intro i toks _; rfl
+  | succ n ih =>
+    intro i toks hne
+    have hlen : toks.length ≠ 0 := fun h => hne (List.length_eq_zero_iff.mp h)
+    simp only [replaceLoopChecked, replaceLoop, hlen, if_false]
+    by_cases hi : i < toks.length - 1
+    · simp only [hi, if_true]
+      by_cases hc : toks[i]? = some f ∧ toks[i + 1]? = some s
+      · simp only [hc, and_self, if_true]
+        apply ih
+        intro he
+        have : ((toks.set i m).eraseIdx (i + 1)).length = 0 := by rw [he]; rfl
+        rw [List.length_eraseIdx] at this
+        simp only [List.length_set] at this
+        split at this <;> omega
+      · simp only [hc, if_false]
+        exact ih _ _ hne
+    · simp only [hi, if_false]
 
 end RtenVerif.Bpe
